@@ -161,6 +161,8 @@ def step (toks : List String) : String :=
   | "single" :: fz :: sb :: slb :: n :: rest => doSingle fz sb slb (parseNat n) rest
   -- two real code paths compared with each other (timestep vs its parts); nothing for the model to add
   | "lock" :: _ => "same"
+  -- strings of more than 65 536 slots, several updates on one container: real code against the Rust oracle only
+  | "large" :: _ => "same"
   | _ => "bad-op"
 
 def main : IO Unit := run step
